@@ -340,6 +340,14 @@ func runC13(c *fw.Case) (o fw.Outcome) {
 	for i, n := 0, 1+r.Intn(3); i < n; i++ {
 		a.psis = append(a.psis, int64(r.Intn(256)))
 	}
+	switch r.Intn(6) {
+	case 0: // a repeated identity: what is given is what is carried (the builders do not interpret the list)
+		a.psis = append(a.psis, a.psis[r.Intn(len(a.psis))])
+	case 1: // a long list
+		for n := 16 + r.Intn(240); len(a.psis) < n; {
+			a.psis = append(a.psis, int64(r.Intn(256)))
+		}
+	}
 	a.nas = rbytes(r, pick(r, 0, 1, 2, 127, 128, 255, 256, 2047, 5000, r.Intn(300)))
 	a.ipv4 = pick(r, "0.0.0.0", "255.255.255.255", "10.0.0.1", "192.168.61.3", "127.0.0.1", net.IP(rbytes(r, 4)).String())
 	a.plmn = rbytes(r, 3)
@@ -390,7 +398,12 @@ func runC13(c *fw.Case) (o fw.Outcome) {
 			case "psi":
 				a.psi = pick(r, int64(256), 257, -1, 300, 1<<16, 9999)
 			case "psis":
-				a.psis[r.Intn(len(a.psis))] = pick(r, int64(256), -1, 300, 70000)
+				if r.Intn(2) == 0 {
+					a.psis[r.Intn(len(a.psis))] = pick(r, int64(256), -1, 300, 70000)
+				} else { // out of range but congruent modulo 256 to an in-range identity given earlier in the same list
+					base := a.psis[r.Intn(len(a.psis))]
+					a.psis = append(a.psis, base+pick(r, int64(256), 512, 65536, -256))
+				}
 			case "plmn": // PLMNIdentity is OCTET STRING (SIZE(3))
 				a.plmn = rbytes(r, pick(r, 0, 1, 2, 4, 5, 6))
 			case "gnbbits": // gNB-ID is BIT STRING (SIZE(22..32))
